@@ -215,6 +215,18 @@ func checkC05(c *Ctx) {
 	})
 	c.flushExtra()
 
+	// several subscribers with credentials of their own in one process: contexts are all created
+	// first, then they authenticate one after the other (state shared between subscribers shows here)
+	nMulti := nPS / 2
+	c.Batch(multiJobs(root.Sub("multi"), nMulti, multiOpts{profile: "c05-multi", viaCreate: false, roamers: false, ownCreds: true}, "ps-multi-c05", "c05-multi"), func(j Job, r *Run, fs []Finding) {
+		shape("multi", j.S)
+		c.Probes["multi-subscriber-registrations"] += len(j.S.Subscribers)
+	})
+	c.Batch(multiJobs(root.Sub("multi2"), nMulti, multiOpts{profile: "c05-multi", viaCreate: true, roamers: true, ownCreds: true}, "ps-multi-c05", "c05-multi-create"), func(j Job, r *Run, fs []Finding) {
+		shape("multi-create", j.S)
+		c.Probes["multi-subscriber-registrations"] += len(j.S.Subscribers)
+	})
+
 	jobs = nil
 	for i := 0; i < nProbe; i++ {
 		s := psScenario(root, "probe", 0, 2, false)
@@ -490,4 +502,235 @@ func qosClass(n int) int {
 		return 3
 	}
 	return 4
+}
+
+// ---------- multi-subscriber procedure-level runs (shared by C01, C05, C11, C16) ----------
+
+type multiOpts struct {
+	profile   string
+	viaCreate bool // contexts come from stgutg.CreateUE (RAN-UE-NGAP-ID derived from the IMSI, NEA0/NIA2)
+	roamers   bool // subscribers of other PLMNs (same MNC length) are mixed in
+	ownCreds  bool // subscribers have credentials of their own
+	latency   string
+}
+
+// multiScenario draws a scenario in which 2..4 explicit subscribers share one process and one
+// association: all contexts are created first (in a drawn order), then they register in list order.
+func multiScenario(rp *kernel.Rand, o multiOpts) *scn.Scenario {
+	lat := o.latency
+	if lat == "" {
+		lat = "zero"
+	}
+	g := GenOpts{Profile: o.profile, Mode: "test", MinReg: 1, MaxReg: 1, Latency: lat, ExplicitUEs: 4, OptIEs: true, MinMSIN: 4}
+	s := Gen(rp.Uint64(), g)
+	s.Args = []string{}
+	cfg := &s.Config
+	n := rp.Range(2, 4)
+	last4 := func(x string) string {
+		if len(x) <= 4 {
+			return x
+		}
+		return x[len(x)-4:]
+	}
+	subs := []string{cfg.IMSI}
+	seen := map[string]bool{cfg.IMSI: true}
+	seen4 := map[string]bool{last4(cfg.IMSI): true}
+	for tries := 0; len(subs) < n && tries < 100; tries++ {
+		var sub string
+		tail := rp.Digits(rp.Range(4, 12-len(cfg.MNC)))
+		kind := rp.Intn(3)
+		if !o.roamers {
+			kind = 0
+		}
+		switch kind {
+		case 0: // same PLMN, another MSIN (length may differ)
+			sub = cfg.MCC + cfg.MNC + tail
+		case 1: // roamer: another MCC/MNC with the same MNC length
+			sub = rp.Digits(3) + rp.Digits(len(cfg.MNC)) + tail
+		default: // roamer from a neighbouring PLMN: one digit differs
+			pl := []byte(cfg.MCC + cfg.MNC)
+			k := rp.Intn(len(pl))
+			pl[k] = byte('0' + (int(pl[k]-'0')+1+rp.Intn(9))%10)
+			sub = string(pl) + tail
+		}
+		if seen[sub] || seen4[last4(sub)] {
+			continue
+		}
+		seen[sub], seen4[last4(sub)] = true, true
+		subs = append(subs, sub)
+	}
+	n = len(subs)
+	s.Subscribers = subs
+	s.Population = n
+	if o.ownCreds {
+		creds := make([]scn.Cred, n)
+		x := hexCase(rp, rp.Bytes(16))
+		style := rp.Intn(5)
+		switch style {
+		case 0: // one operator: every subscription is OP-only with the operator's OP, keys differ
+			cfg.OPC = ""
+			for i := 1; i < n; i++ {
+				creds[i] = scn.Cred{K: hexCase(rp, boundary128(rp)), OPC: "", OP: cfg.OP}
+			}
+		case 1: // the same 128-bit value provisioned once as OPc and once as OP under one K
+			cfg.OPC, cfg.OP = x, ""
+			for i := 1; i < n; i++ {
+				if i%2 == 1 {
+					creds[i] = scn.Cred{K: cfg.K, OPC: "", OP: x}
+				} else {
+					creds[i] = scn.Cred{K: cfg.K, OPC: x, OP: ""}
+				}
+			}
+		case 2: // unrelated credentials in every provisioning shape
+			for i := 1; i < n; i++ {
+				c := scn.Cred{K: hexCase(rp, boundary128(rp)), OPC: hexCase(rp, rp.Bytes(16)), OP: hexCase(rp, rp.Bytes(16))}
+				switch rp.Intn(3) {
+				case 0:
+					c.OPC = ""
+				case 1:
+					c.OP = ""
+				}
+				creds[i] = c
+			}
+		case 3: // everybody uses the configured credentials
+		case 4: // keys one bit apart under the same OP/OPc strings
+			kb, _ := hex.DecodeString(cfg.K)
+			for i := 1; i < n; i++ {
+				kk := append([]byte{}, kb...)
+				kk[rp.Intn(16)] ^= 1 << uint(rp.Intn(8))
+				creds[i] = scn.Cred{K: hexCase(rp, kk), OPC: cfg.OPC, OP: cfg.OP}
+			}
+		}
+		s.SubCreds = creds
+	}
+	// creation order: a permutation
+	perm := make([]interface{}, n)
+	idx := make([]int, n)
+	for i := range idx {
+		idx[i] = i
+	}
+	for i := n - 1; i > 0; i-- {
+		j := rp.Intn(i + 1)
+		idx[i], idx[j] = idx[j], idx[i]
+	}
+	for i, v := range idx {
+		perm[i] = float64(v)
+	}
+	var dereg []interface{}
+	for k := 0; k < n; k++ {
+		if rp.Chance(1, 3) {
+			dereg = append(dereg, float64(k))
+		}
+	}
+	nea, nia := 0, 2
+	if !o.viaCreate {
+		p := [][2]int{{0, 1}, {0, 2}, {1, 1}, {1, 2}, {2, 1}, {2, 2}}[rp.Intn(6)]
+		nea, nia = p[0], p[1]
+	}
+	s.Rig = map[string]interface{}{"mode": "multi", "nea": nea, "nia": nia, "ran_id": 1 + rp.Intn(1000), "dereg": dereg, "create_order": perm, "via_create_ue": o.viaCreate}
+	for len(s.UEs) < n {
+		u := genUE(rp.Sub(fmt.Sprint("ue", len(s.UEs))), g, len(s.UEs))
+		u.AmfUeID = int64(1000*len(s.UEs)) + u.AmfUeID%1000
+		s.UEs = append(s.UEs, u)
+	}
+	s.UEs = s.UEs[:n]
+	return s
+}
+
+// coreUEs returns the reference core's per-UE summary taken right after the registrations.
+func coreUEs(r *Run) []map[string]interface{} {
+	for _, e := range r.Events {
+		if e.Ev == "summary" {
+			if c, ok := e.Info["core"].(map[string]interface{}); ok {
+				var out []map[string]interface{}
+				ues, _ := c["ues"].([]interface{})
+				for _, u := range ues {
+					m, _ := u.(map[string]interface{})
+					out = append(out, m)
+				}
+				return out
+			}
+		}
+	}
+	return nil
+}
+
+// judgePSMulti: every rule of the reference core, how the rig ended, what UE creation returned and
+// the keys every UE installed.
+func judgePSMulti(r *Run) []Finding {
+	fs := ruleFindings(r)
+	fs = append(fs, rigEnded(r)...)
+	subs := r.Scn.Subscribers
+	cred := func(i int) scn.Cred {
+		if i < len(r.Scn.SubCreds) && r.Scn.SubCreds[i].K != "" {
+			return r.Scn.SubCreds[i]
+		}
+		return scn.Cred{K: r.Scn.Config.K, OPC: r.Scn.Config.OPC, OP: r.Scn.Config.OP}
+	}
+	created := map[int]map[string]interface{}{}
+	ctx := map[int]map[string]interface{}{}
+	for _, e := range r.Events {
+		if e.Ev == "created" {
+			created[e.I] = e.Info
+		}
+		if e.Ev == "ctx" {
+			ctx[e.I] = e.Info
+		}
+	}
+	ranSeen := map[string]int{}
+	for i := range subs {
+		c := created[i]
+		if c == nil {
+			continue
+		}
+		if got := fmt.Sprint(c["supi"]); got != "imsi-"+subs[i] {
+			fs = addFinding(fs, "ident.created-supi@CreateUE", fmt.Sprintf("the context created for subscriber %s carries SUPI %s", subs[i], got), i)
+		}
+		want := cred(i)
+		for _, x := range [][3]string{{"k", want.K, "K"}, {"opc", want.OPC, "OPc"}, {"op", want.OP, "OP"}} {
+			if got := fmt.Sprint(c[x[0]]); got != x[1] {
+				fs = addFinding(fs, "ident.created-"+x[0]+"@CreateUE", fmt.Sprintf("subscriber #%d of %d created in this process carries %s %q, configured %q", i, len(subs), x[2], got, x[1]), i)
+			}
+		}
+		id := fmt.Sprint(c["ran_ue_ngap_id"])
+		if j, dup := ranSeen[id]; dup {
+			fs = addFinding(fs, "ident.created-ran-id@CreateUE", fmt.Sprintf("subscribers #%d and #%d share RAN-UE-NGAP-ID %s", j, i, id), i)
+		}
+		ranSeen[id] = i
+	}
+	cus := coreUEs(r)
+	for i := range subs {
+		c := ctx[i]
+		if c == nil || i >= len(cus) {
+			continue
+		}
+		for _, x := range [][2]string{{"kamf", "kamf"}, {"knasint", "knasint"}, {"knasenc", "knasenc"}} {
+			if fmt.Sprint(c[x[0]]) != fmt.Sprint(cus[i][x[1]]) {
+				fs = addFinding(fs, "keys."+x[0]+"@RegisterUE", fmt.Sprintf("UE #%d of %d installed %s=%v, the network derived %v", i, len(subs), x[0], c[x[0]], cus[i][x[1]]), i)
+			}
+		}
+	}
+	if len(ctx) < len(subs) && len(fs) == 0 {
+		fs = addFinding(fs, "unobserved.ctx@"+lastSite(r), fmt.Sprintf("%d of %d registrations completed: %s", len(ctx), len(subs), tail(r.StdoutText(), 160)), -1)
+	}
+	return fs
+}
+
+func init() {
+	judges["ps-multi"] = judgePSMulti
+	judges["ps-multi-c05"] = func(r *Run) []Finding {
+		return onlyRules(judgePSMulti(r), "aka.res", "nas.mac", "nas.container", "nas.decode", "keys.", "exit.status", "panic", "hang", "watchdog", "unobserved.")
+	}
+	judges["ps-multi-c16"] = func(r *Run) []Finding {
+		return onlyRules(judgePSMulti(r), "ident.", "suci.", "aka.res", "nas.seccap", "nas.mac", "nas.sht", "exit.status", "panic", "hang", "watchdog", "unobserved.")
+	}
+}
+
+// multiJobs appends n multi-subscriber jobs.
+func multiJobs(rp *kernel.Rand, n int, o multiOpts, judge, tag string) []Job {
+	var jobs []Job
+	for i := 0; i < n; i++ {
+		jobs = append(jobs, Job{S: multiScenario(rp, o), Rig: "ps", Judge: judge, Tag: tag})
+	}
+	return jobs
 }
